@@ -51,7 +51,11 @@ CHECKS = {
             "the reference; inputs are enumerated lazily (an array element becomes a choice point when the definition first reads it) over "
             "per-type domains incl. width extremes, under role preconditions; the compiled kernel runs on identical inputs in exact-extent "
             "buffers with guard zones; status, every written output, guard zones and cross-specialisation agreement are compared. Kernels "
-            "without a definition get the extent / crash / filler-independence / cross-specialisation checks only.",
+            "whose YAML entry has no executable definition are compared with a harness-side definition where one exists "
+            "(model/kernelspec_extra.py: the sort family, sorting_ranges, unique, subrange_equal, the string sorts, preparenext, the "
+            "byte copies, fill_tocomplex; non-unique answers such as unstable argsort ties go through a checker that accepts every "
+            "sorted permutation); the remaining kernels without a definition get the extent / crash / filler-independence / "
+            "cross-specialisation checks only.",
             "bounded exhaustive (deviation-bounded, lazily branching) enumeration of kernel inputs against the executable specification"),
     "C14": ("model_checking", "E3", "Explicit-state search over ArrayBuilder command histories (17-command alphabet quick, 31 thorough; well- "
             "and ill-nested; depth 5 / 6) with the reference builder's state as the state key; every transition replayed on a fresh real "
